@@ -58,7 +58,58 @@ pub fn run(cx: &mut Ctx) {
     align_order(cx, &src);
     allowed_handled(cx, &src);
     prefix_agreement(cx, &src);
+    grouped_zero_padding(cx, &src);
     crate::rules::float_rules::float_renderer(cx, "C18.G1");
+}
+
+/// A3: grouped digits are extended to the width only under zero padding.
+fn grouped_zero_padding(cx: &mut Ctx, src: &sm::Src) {
+    let rule = "C18.A3";
+    cx.rule(rule, "add_magnitude_separators, interpreted over fill in {none, '0', 'x'} x alignment in {none, '=', '>'} x width in {none, 10} for a 4-digit magnitude: the digit count handed to the separator routine is the field width exactly when the fill is '0' and the alignment is '=' (what the 0 flag sets) and a width is given; in every other case it is the magnitude's own length (Python pads `format(1234, '10,')` with blanks, not with grouped zeros)");
+    cx.floor(rule, 18);
+    let Some(f) = src.method("FormatSpec", "add_magnitude_separators") else { return cx.anchor_missing(rule, "add_magnitude_separators") };
+    use crate::eval::{Machine, V};
+    let methods = |recv: &V, name: &str, args: &[V]| -> Option<V> {
+        match (recv, name) {
+            (V::Str(st), "len") => Some(V::Int(st.len() as i128)),
+            (V::Opt(Some(x)), "unwrap_or") => Some((**x).clone()),
+            (V::Opt(None), "unwrap_or") => args.first().cloned(),
+            (V::Opt(Some(x)), "unwrap") => Some((**x).clone()),
+            (x, "try_into") | (x, "into") | (x, "unwrap") => Some(x.clone()),
+            (_, "get_separator_interval") => Some(V::Int(3)),
+            (V::Unit, n) if n.ends_with("cmp::max") || n == "max" => match (args.first(), args.get(1)) {
+                (Some(V::Int(a)), Some(V::Int(b))) => Some(V::Int(*a.max(b))),
+                _ => None,
+            },
+            // the separator routine: report the digit count it is given
+            (V::Unit, n) if n.ends_with("add_magnitude_separators_for_char") => args.get(3).cloned(),
+            _ => None,
+        }
+    };
+    let mut bad = vec![];
+    for (fname, fill) in [("none", V::Opt(None)), ("'0'", V::Opt(Some(Box::new(V::Char('0' as u32))))), ("'x'", V::Opt(Some(Box::new(V::Char('x' as u32)))))] {
+        for (aname, align) in [("none", V::Opt(None)), ("=", V::Opt(Some(Box::new(V::Enum("FormatAlign::AfterSign".into()))))), (">", V::Opt(Some(Box::new(V::Enum("FormatAlign::Right".into())))))] {
+            for (wname, width) in [("none", V::Opt(None)), ("10", V::Opt(Some(Box::new(V::Int(10)))))] {
+                let mut m = Machine::new(&methods);
+                m.set("self.fill", fill.clone());
+                m.set("self.align", align.clone());
+                m.set("self.width", width.clone());
+                m.set("self.grouping_option", V::Opt(Some(Box::new(V::Enum("FormatGrouping::Comma".into())))));
+                m.set("magnitude_str", V::Str("1234".into()));
+                m.set("prefix", V::Str(String::new()));
+                let want = if fname == "'0'" && aname == "=" && wname == "10" { 10 } else { 4 };
+                match m.eval_block(&f.block) {
+                    Ok(V::Int(n)) if n == want => cx.ok_trivial(rule),
+                    other => bad.push(format!("fill {} align {} width {} -> {:?} digits (expected {})", fname, aname, wname, other, want)),
+                }
+            }
+        }
+    }
+    if bad.is_empty() {
+        cx.ok(rule, "grouped digits are zero-extended to the width only for fill '0' with '=' alignment");
+    } else {
+        cx.fail(rule, &format!("{}/zero-extension", rule), &src.loc(f), &format!("add_magnitude_separators extends the grouped digits to the width outside zero padding: {}", bad.iter().take(4).cloned().collect::<Vec<_>>().join("; ")));
+    }
 }
 
 /// A2: the prefix that is subtracted from the width for zero padding is the prefix that is printed.
